@@ -5,8 +5,37 @@
   half, hold-out test half), each constructing its result through `Screen.mk?` with the parent's mappings, as
   the code does since commit 141f07a; `stepOld` is the lifecycle with the constructors as they were before.
   Tied to /repo by harness/c03.py.
+
+  CLAUSE MAP (property text -> theorem)
+  1. "All screens derived from one prepared simulation ... assign the same integer id to the same sample name and to the
+     same (treatment name, dose)"                      C03_ids_agree_across_histories (any two stages of any two histories, the
+                                                       prepared screen included); parts: C03_history, C03_same_name_same_id,
+                                                       C03_same_name_same_id_histories; converse C03_same_id_same_name with
+                                                       C03_fresh_tables_injective
+  2. "- the training screen, the held-out test screen" C03_holdout_total (both halves EXIST for every selection of the screen's
+                                                       length), C03_holdout_preserves_mappings, C03_holdout_rows
+  3. "- and every screen obtained from them by revealing, masking or unmasking plates or by saving and reloading"
+                                                       C03_step_preserves_mappings (each step), C03_lifecycle_total (which steps can
+                                                       fail at all: only a refused reveal, a reload of a screen without rows or
+                                                       columns -- known finding C02:zero-row-screen -- and a selection of the wrong
+                                                       length), C03_history (induction over histories)
+  4. "Consequently posterior samples learned on one stage produce identical predictions for the same experiments on every
+     later stage"                                      C03_predictions_stable, C03_predictions_stable_incl_prepared -- for every
+                                                       predictor that is a function of (sample id, treatment ids) of the row; that the
+                                                       real predictors are of this form is C09 (C09's theorems), the real
+                                                       SparseDrugComboMCMCSample is exercised by the harness
+  5. "the embedding sizes implied by the screen never shrink between stages"
+                                                       C03_space_never_shrinks (they are equal at every stage)
+  6. quantifier "in particular those where some sample or (treatment, dose) occurs only in held-out rows"
+                                                       all theorems quantify over every selection; the witness examples at the end show
+                                                       such a screen satisfies the hypotheses
+  7. quantifier "for any order in which plates are revealed"   histories are arbitrary lists of steps with arbitrary id lists
+  Regression (not a clause): C03_old_constructors_counterexample / _renumber / C03_new_constructors_on_witness.
+  Harness-only: nothing of the text; the hold-out's random choice is an explicit selection vector (numpy's generator is not
+  modelled), and the CLI `reveal_plate` is the composition save+load, reveal, save+load of modelled steps.
 -/
 import Batchie.Lemmas.LifecycleHistory
+import Batchie.Lemmas.LifecycleHoldout
 import Batchie.Lemmas.LifecycleExamples
 import Batchie.Lemmas.LifecycleInj
 import Batchie.Model.Persist
@@ -205,6 +234,47 @@ theorem C03_predictions_stable {α : Type} [Inhabited α] (f : Int → List Int 
   rw [getElem!_pos _ r1 l1, getElem!_pos _ r2 l2] at hsid
   rw [getElem!_pos _ r1 l1', getElem!_pos _ r2 l2'] at htid
   rw [hsid, htid]
+
+/-! ### totality: which steps can fail at all -/
+
+/-- The hold-out split is TOTAL on constructed screens: for every selection vector of the screen's length both halves
+    exist, and (C03_holdout_preserves_mappings) carry the parent's mappings.  (A selection of another length is an
+    `IndexError` in numpy; the code always builds the selection with `np.zeros(screen.size)`.) -/
+theorem C03_holdout_total (s : Screen) (h : Valid s) (sel : List Bool) (hsel : sel.length = s.size) :
+    ∃ k t, holdout s sel = .ok (k, t) ∧ (k.tmap = s.tmap ∧ k.smap = s.smap) ∧ (t.tmap = s.tmap ∧ t.smap = s.smap) := by
+  obtain ⟨k, t, hkt⟩ := holdout_total h sel hsel
+  exact ⟨k, t, hkt, C03_holdout_preserves_mappings s k t sel hkt⟩
+
+theorem C03_holdout_wrong_length (s : Screen) (sel : List Bool) (hsel : sel.length ≠ s.size) :
+    holdout s sel = .error .indexError := by
+  unfold holdout
+  simp [hsel]
+  rfl
+
+/-- On a constructed screen a lifecycle step can only fail for the stated reasons: mask and unmask never fail, both
+    hold-out halves exist for every selection of the right length, reveal fails exactly when it is refused, save+load only
+    for a screen without rows or without treatment columns (known finding C02:zero-row-screen). -/
+theorem C03_lifecycle_total (s : Screen) (h : Valid s) :
+    (∃ t, step .mask s = .ok t) ∧ (∃ t, step .unmask s = .ok t)
+    ∧ (∀ sel, sel.length = s.size → (∃ t, step (.holdKeep sel) s = .ok t) ∧ (∃ t, step (.holdTest sel) s = .ok t))
+    ∧ (∀ ids, revealRefused s ids = false → ∃ t, step (.reveal ids) s = .ok t)
+    ∧ (∀ ids, revealRefused s ids = true → step (.reveal ids) s = .error .valueError)
+    ∧ (0 < s.size → 0 < s.arity → step .saveLoad s = .ok s) := by
+  refine ⟨⟨_, maskScreen_eq h.wf⟩, ⟨_, unmaskScreen_eq h.wf⟩, ?_, ?_, ?_, ?_⟩
+  · intro sel hsel
+    obtain ⟨k, t, hkt⟩ := holdout_total h sel hsel
+    exact ⟨⟨k, by simp [step, hkt, Except.map]⟩, ⟨t, by simp [step, hkt, Except.map]⟩⟩
+  · intro ids hr
+    exact ⟨_, revealPlates_eq h.wf ids hr⟩
+  · intro ids hr
+    exact revealPlates_refused s ids hr
+  · intro h1 h2
+    exact load_save h.wf (List.length_pos_iff.1 h1) (Nat.pos_iff_ne_zero.1 h2)
+
+/-- non-vacuity: on the witness the hold-out exists for EVERY one of the 2^6 selections; e.g. the one of the regression -/
+example : ∃ k t, holdout witnessPrepared witnessSel = .ok (k, t) :=
+  let ⟨k, t, h, _⟩ := C03_holdout_total witnessPrepared ⟨witnessRaw, witnessPrepared_mk⟩ witnessSel (by decide)
+  ⟨k, t, h⟩
 
 /-! ### the property in one piece, the prepared screen included among the stages -/
 
